@@ -629,6 +629,26 @@ func (rn *runner) exec(p *caseProg, emit bool) runResult {
 		} else if raised {
 			pendExc = false
 		}
+		// loadScriptWithCallingHash (vm.go:490): the loaded script shares the caller's evaluation stack iff it is
+		// loaded with rvcount = -1 (modes 1, 2) and the caller's stack is empty once the arguments are taken
+		// (theorem load_shares_iff / shared_stack_unwind)
+		if derr == nil && op == opcode.SYSCALL && len(param) == 4 && param[3] == sysMarker && param[0] == sysLoad && obs != "FAULT" {
+			if is := v.Istack(); len(is) == before.depth+1 && before.depth > 0 {
+				mode, nargs := int(param[2]&3), int(param[2]>>2)
+				shared := is[len(is)-1].Estack() == before.stacks[before.depth-1]
+				want := mode != 0 && before.lens[before.depth-1]-nargs == 0
+				if shared != want {
+					o.Fail("load-stack-sharing", rn.k, "script loaded with mode %d and %d arguments on a caller stack of %d items: shares the caller's stack = %v, expected %v", mode, nargs, before.lens[before.depth-1], shared, want)
+				}
+				if emit {
+					if shared {
+						o.Count("load:shares-caller-stack")
+					} else {
+						o.Count("load:own-stack")
+					}
+				}
+			}
+		}
 		obs = withGhost(obs)
 		flag := ""
 		if obs == "FAULT" && (stepErr == nil || !strings.Contains(stepErr.Error(), "stack is too big")) && !keyFault {
